@@ -413,6 +413,9 @@ func do(line string) string {
 	if isCallerOp(ws[0]) {
 		return doCaller(line, ws)
 	}
+	if isRequestOp(ws[0]) {
+		return doRequest(line, ws)
+	}
 	pb, before := snapshot()
 	szBefore := stride
 	out, mut := exec(ws)
